@@ -342,6 +342,7 @@ func (r *simRegistry) registry(req *http.Request, body []byte) (*http.Response, 
 		r.manifests[name] = body
 		return simResp(req, 201, nil, nil, 0), nil
 	case kind == "blobs" && rest != "" && !strings.HasPrefix(rest, "uploads"):
+		rest = strings.Replace(rest, "sha256-", "sha256:", 1)
 		data, ok := r.blobs[rest]
 		if ok && !r.has(repo, rest) {
 			ok = false
